@@ -26,6 +26,10 @@ func weldRules(c *props.Ctx, p *c09path, bs *site) {
 		c.R.Undecide("WELD-1", pkgRel+":blockSite", c.P.Pos(p.march.Pos()), "no block-storage march site on the C09 path")
 		return
 	}
+	blockFn := bs.blockFn
+	if blockFn == nil {
+		blockFn = bs.fn
+	}
 	if bs.lookupFn != nil {
 		share1(c, bs.lookupFn)
 	} else {
@@ -36,7 +40,7 @@ func weldRules(c *props.Ctx, p *c09path, bs *site) {
 	for _, fn := range p.order {
 		calls := false
 		ssau.AllInstrs(fn, func(in ssa.Instruction) {
-			if call, ok := in.(*ssa.Call); ok && call.Call.StaticCallee() == bs.fn {
+			if call, ok := in.(*ssa.Call); ok && call.Call.StaticCallee() == blockFn {
 				calls = true
 			}
 		})
@@ -55,7 +59,7 @@ func weldRules(c *props.Ctx, p *c09path, bs *site) {
 	}
 	nWeld := 0
 	for _, fn := range p.order {
-		if isMerge[fn] || fn == bs.fn {
+		if isMerge[fn] || fn == bs.fn || fn == blockFn {
 			continue
 		}
 		ssau.AllInstrs(fn, func(in ssa.Instruction) {
@@ -88,7 +92,6 @@ func weldRules(c *props.Ctx, p *c09path, bs *site) {
 		c.R.Undecide("WELD-1", bs.name+"#result", c.P.Pos(p.march.Pos()), "no path function returns the merged block meshes")
 	}
 }
-
 
 func isMesh(t types.Type) bool { return ssau.IsNamed(t, modelingPath, "Mesh") }
 
@@ -184,7 +187,7 @@ func merge1(c *props.Ctx, fn *ssa.Function, bs *site) {
 	var call *ssa.Call
 	n := 0
 	ssau.AllInstrs(fn, func(in ssa.Instruction) {
-		if cl, ok := in.(*ssa.Call); ok && cl.Call.StaticCallee() == bs.fn {
+		if cl, ok := in.(*ssa.Call); ok && cl.Call.StaticCallee() == bs.blockFnOrSelf() {
 			call = cl
 			n++
 		}
@@ -270,10 +273,17 @@ func loadAddr(v ssa.Value) ssa.Value {
 	return nil
 }
 
+func (s *site) blockFnOrSelf() *ssa.Function {
+	if s.blockFn != nil {
+		return s.blockFn
+	}
+	return s.fn
+}
+
 // blockMapField: the map field the site looks block positions up in.
 func (s *site) blockMapField() *types.Var {
 	var out *types.Var
-	ssau.AllInstrs(s.fn, func(in ssa.Instruction) {
+	ssau.AllInstrs(s.blockFnOrSelf(), func(in ssa.Instruction) {
 		lk, ok := in.(*ssa.Lookup)
 		if !ok {
 			return
@@ -321,6 +331,10 @@ func share1(c *props.Ctx, fn *ssa.Function) {
 			nm++
 		}
 	})
+	if nl == 1 && nm == 0 {
+		c.R.Violate("SHARE-1", key, pos, "the index of a new vertex is never recorded in the lookup map: the next triangle that uses the same vertex gets a duplicate, and triangles inside one block no longer share edges")
+		return
+	}
 	if nl != 1 || nm != 1 {
 		c.R.Undecide("SHARE-1", key, pos, fmt.Sprintf("expected one comma-ok lookup and one map update, found %d / %d", nl, nm))
 		return
